@@ -144,3 +144,47 @@ fn rac_prose_offsets() {
     println!("RAC-SAMPLE prose_offsets {{\"language\": \"rust\", \"file\": {:?}, \"prose_words\": [\"naïve\", \"gamma\", \"after\", \"emoji\"]}}", "    // naïve é😀 gamma\r\ny = '😀'; /* after emoji */\n");
     println!("RAC-OK prose_offsets cases={} nontrivial={} bound=7-languages+markdown,<=3-of-<=14-segments-with-known-prose-words", cases, nontrivial);
 }
+
+// ---- single-file probes for shapes the segment grammar above does not produce. Each is its own obligation (rac:c04_*), so
+// that a shape recorded as a known finding does not hide any other failure of the prose-offset contract. ----
+fn rac_c04_words(lang: &str, src: &str) -> Result<Vec<String>, String> {
+    let parser = crate::CommentParser::new_from_language_id(lang, harper_core::parsers::MarkdownOptions::default()).ok_or("no parser")?;
+    std::panic::catch_unwind(std::panic::AssertUnwindSafe(|| {
+        let d = Document::new_curated(src, &parser);
+        d.get_tokens().iter().filter(|t| matches!(t.kind, TokenKind::Word(_))).map(|t| d.get_span_content_str(&t.span)).collect::<Vec<_>>()
+    })).map_err(|_| "panicked".to_string())
+}
+fn rac_c04_probe(name: &str, cases: &[(&str, &str, &[&str])]) {
+    for (lang, src, want) in cases {
+        let got = rac_c04_words(lang, src);
+        let ok = matches!(&got, Ok(g) if g.iter().map(|s| s.as_str()).collect::<Vec<_>>() == want.to_vec());
+        if !ok {
+            println!("RAC-CEX {} {{\"language\": {:?}, \"file\": {:?}, \"prose_words\": {:?}, \"words_seen\": {:?}}}", name, lang, src, want, got);
+            panic!("prose-offset contract violated");
+        }
+    }
+    println!("RAC-OK {} cases={} nontrivial={} bound={}-fixed-file(s)", name, cases.len(), cases.len(), cases.len());
+}
+#[test]
+fn rac_c04_jsdoc_fence() {
+    rac_c04_probe("c04_jsdoc_fence", &[("javascript", "/**\n * Example:\n * ```js\n * compute();\n * ```\n * Done here.\n */\nfunction f() {}\n", &["Example", "Done", "here"])]);
+}
+#[test]
+fn rac_c04_tilde_fence() {
+    rac_c04_probe("c04_tilde_fence", &[("rust", "/// Before words.\n/// ~~~\n/// let total = compute();\n/// ~~~\n/// After words.\nfn f() {}\n", &["Before", "words", "After", "words"])]);
+}
+#[test]
+fn rac_c04_go_directive() {
+    rac_c04_probe("c04_go_directive", &[
+        ("go", "// Foo does things.\n//go:noinline\nfunc Foo() {}\n", &["Foo", "does", "things"]),
+        ("go", "//go:build linux\n//go:generate stringer\n\n// Package foo does things.\npackage foo\n", &["Package", "foo", "does", "things"]),
+    ]);
+}
+#[test]
+fn rac_c04_javadoc_pre() {
+    rac_c04_probe("c04_javadoc_pre", &[("java", "class A {\n  /**\n   * Foo bar.\n   * <pre>\n   * int total = compute();\n   * </pre>\n   */\n  int f() { return 1; }\n}\n", &["Foo", "bar"])]);
+}
+#[test]
+fn rac_c04_javadoc_return() {
+    rac_c04_probe("c04_javadoc_return", &[("java", "class A {\n  /** Foo bar.\n   * @return the value */\n  int f() { return 1; }\n}\n", &["Foo", "bar", "the", "value"])]);
+}
